@@ -10,6 +10,11 @@ Import ListNotations.
 Require Import SR.Base.Res SR.Model.Ndjson.
 Require SR.Model.Workbook SR.Proofs.WorkbookP SR.Model.Csv SR.Proofs.CsvP.
 Require Import SR.Gen.CsvOpenParams.
+(* The definitions of this development that occur in theorem statements (Props/) live in Spec/NdjsonWf.v (audit item G1).
+   The abbreviations keep the qualified names NdjsonP.name of other files resolving; they are parsing-only aliases. *)
+Require Export SR.Spec.NdjsonWf.
+Notation scalar_text := SR.Spec.NdjsonWf.scalar_text (only parsing).
+Notation scalar_pair := SR.Spec.NdjsonWf.scalar_pair (only parsing).
 Open Scope N_scope.
 Ltac Zify.zify_post_hook ::= Z.to_euclidean_division_equations.
 
@@ -468,8 +473,6 @@ Proof.
     cbn [andb] in E. apply N.ltb_ge in E. apply scalar_small. lia.
 Qed.
 
-Definition scalar_text (ea : bool) (s : text) : bool := ea || forallb scalar s.
-
 Lemma scalar_escape ea s : scalar_text ea s = true -> forallb scalar (escape ea s) = true.
 Proof.
   unfold scalar_text. intros H. induction s as [|c s IH]; [reflexivity|].
@@ -481,8 +484,6 @@ Qed.
 
 Lemma scalar_string ea s : scalar_text ea s = true -> forallb scalar (json_string ea s) = true.
 Proof. intros H. unfold json_string. cbn [forallb]. rewrite forallb_app, scalar_escape by exact H. reflexivity. Qed.
-
-Definition scalar_pair (ea : bool) (kv : text * text) : bool := scalar_text ea (fst kv) && scalar_text ea (snd kv).
 
 Lemma scalar_json_pair ea kv : scalar_pair ea kv = true -> forallb scalar (json_pair ea kv) = true.
 Proof.
